@@ -239,6 +239,18 @@ func (p *Program) dependsOnCall(v ssa.Value, callee string, depth int, seen map[
 			}
 		}
 	}
+	// … or of a method value / literal selected locally (`entry := g.keyAndVal; if … { entry = g.valAndItsKey }`)
+	if c, ok := tuple.(*ssa.Call); ok {
+		for _, lc := range p.localCallees(c.Common()) {
+			for _, ret := range returnsOf(lc) {
+				for i := range ret.Results {
+					if p.dependsOnCall(p.res(ret, i), callee, depth+1, seen) {
+						return true
+					}
+				}
+			}
+		}
+	}
 	in, ok := v.(ssa.Instruction)
 	if !ok {
 		return false
@@ -962,8 +974,33 @@ func ruleC03R6(r *Run) {
 									}
 								}
 							}
-							if asAny == nil || asAny.Sel.Name != "AsAny" {
+							// … or adapter(X) with `func adapter[V any](ctor func() *Generator[V]) func() *Generator[any] { return
+							// func() *Generator[any] { return ctor().AsAny() } }`: the generator type is X's result
+							var viaAdapter types.Type
+							if asAny == nil {
+								if ce, ok := kv.Value.(*ast.CallExpr); ok && len(ce.Args) == 1 {
+									if t := p.asAnyAdapterResult(ce); t != nil {
+										viaAdapter = t
+									}
+								}
+							}
+							if viaAdapter == nil && (asAny == nil || asAny.Sel.Name != "AsAny") {
 								r.Fail("newMakeKindGen#case."+kind, kv.Pos(), "the table entry for reflect."+kind+" is not a function returning <generator>.AsAny()")
+								continue
+							}
+							if viaAdapter != nil {
+								r.Check("newMakeKindGen#cast."+kind, kv.Pos(), castTrue, "values of reflect."+kind+" generators are converted to named types of that kind", "Make does not request a conversion for reflect."+kind+" (the table hit does not return mayNeedCast = true)")
+								nScalar++
+								good, got := false, "?"
+								if pt, ok := viaAdapter.(*types.Pointer); ok {
+									if nt, ok := pt.Elem().(*types.Named); ok && nt.TypeArgs() != nil && nt.TypeArgs().Len() == 1 {
+										got = nt.TypeArgs().At(0).String()
+										if bt, ok := nt.TypeArgs().At(0).Underlying().(*types.Basic); ok {
+											good = bt.Kind() == kindToBasic[kind]
+										}
+									}
+								}
+								r.Check("newMakeKindGen#case."+kind, kv.Pos(), good, "reflect."+kind+" is generated by a generator of "+got, "Make maps reflect."+kind+" to a generator of "+got+": the value does not have the requested dynamic type")
 								continue
 							}
 							r.Check("newMakeKindGen#cast."+kind, kv.Pos(), castTrue, "values of reflect."+kind+" generators are converted to named types of that kind", "Make does not request a conversion for reflect."+kind+" (the table hit does not return mayNeedCast = true)")
@@ -1302,7 +1339,12 @@ func ruleC03R8(r *Run) {
 	r.Floor("nil returns of ptrGen.value", n, 1)
 }
 
-func ruleC03R9(r *Run) {
+// ruleRepeatOwnState (part of C03-R9; C04-R4.11 and the prune bundle): the fields of repeat are written only by
+// newRepeat, more and reject. For C03 the length guarantees rest on invariants only they maintain; for C04 the only
+// state derived from a rejection that may steer a later draw is the one C04-R4.4 reviews inside them (forceStop, read
+// after the replay-neutral zero coin) — a generator that adjusts maxCount, count or pContinue after a rejection makes
+// a stop decision that prune() cannot reproduce.
+func ruleRepeatOwnState(r *Run) {
 	p := r.P
 	owners := map[string]bool{"newRepeat": true, "(*repeat).more": true, "(*repeat).reject": true}
 	n := 0
@@ -1313,9 +1355,14 @@ func ruleC03R9(r *Run) {
 		n++
 		name := p.hostName(fa.Fn)
 		r.Check(name+"#repeat."+fa.Field+"."+fa.Kind, fa.Instr.Pos(), owners[name] && fa.Kind == "write", "length-control state is written by the repeat type itself",
-			"repeat."+fa.Field+" is written ("+fa.Kind+") in "+name+": the minimum/maximum length guarantees of more()/reject() rely on invariants that only they maintain (e.g. forceStop ⇒ count >= minCount)")
+			"repeat."+fa.Field+" is written ("+fa.Kind+") in "+name+": the minimum/maximum length guarantees of more()/reject() rely on invariants that only they maintain (e.g. forceStop ⇒ count >= minCount), and a stop or continue decision steered from outside them — for instance after a rejection — is not reproduced when the rejected attempt is pruned from the recording")
 	}
 	r.Floor("stores to repeat fields", n, 12)
+}
+
+func ruleC03R9(r *Run) {
+	p := r.P
+	ruleRepeatOwnState(r)
 	// newRepeat reads a negative maximum as "unlimited": a maximum that is computed (len(s)-1, max-min, …) must be
 	// known non-negative at the call, or the loop it bounds loses its bound for the degenerate input
 	nNR := 0
@@ -1654,4 +1701,70 @@ func ruleC03R11(r *Run) {
 		r.Check(name+"#draws", pos, esc == nil, "every path to a return reads the bit stream", name+" can return without having read the bit stream: Generator.value's group then holds no data and endGroup panics with 'group did not use any data from bitstream' — for that input the generator fails instead of producing its (degenerate) value")
 	}
 	r.Floor("value methods of built-in generators", n, 18)
+}
+
+// asAnyAdapterResult: ce is adapter(X) where adapter is a function of the package of the form
+// `func adapter[V any](ctor func() *Generator[V]) func() *Generator[any] { return func() *Generator[any] { return ctor().AsAny() } }`;
+// returns the result type of X (the generator it constructs), or nil.
+func (p *Program) asAnyAdapterResult(ce *ast.CallExpr) types.Type {
+	fun := ce.Fun
+	if ix, ok := fun.(*ast.IndexExpr); ok {
+		fun = ix.X
+	}
+	id, ok := fun.(*ast.Ident)
+	if !ok {
+		return nil
+	}
+	fobj, ok := p.Info.Uses[id].(*types.Func)
+	if !ok || fobj.Pkg() != p.Types {
+		return nil
+	}
+	var decl *ast.FuncDecl
+	for _, f := range p.Files {
+		for _, d := range f.Decls {
+			if fd, ok := d.(*ast.FuncDecl); ok && p.Info.Defs[fd.Name] == types.Object(fobj) {
+				decl = fd
+			}
+		}
+	}
+	if decl == nil || decl.Body == nil || len(decl.Body.List) != 1 || decl.Type.Params == nil || len(decl.Type.Params.List) != 1 || len(decl.Type.Params.List[0].Names) != 1 {
+		return nil
+	}
+	par := decl.Type.Params.List[0].Names[0].Name
+	rs, ok := decl.Body.List[0].(*ast.ReturnStmt)
+	if !ok || len(rs.Results) != 1 {
+		return nil
+	}
+	fl, ok := rs.Results[0].(*ast.FuncLit)
+	if !ok || len(fl.Body.List) != 1 {
+		return nil
+	}
+	rs2, ok := fl.Body.List[0].(*ast.ReturnStmt)
+	if !ok || len(rs2.Results) != 1 {
+		return nil
+	}
+	outer, ok := rs2.Results[0].(*ast.CallExpr)
+	if !ok {
+		return nil
+	}
+	sel, ok := outer.Fun.(*ast.SelectorExpr)
+	if !ok || sel.Sel.Name != "AsAny" {
+		return nil
+	}
+	inner, ok := sel.X.(*ast.CallExpr)
+	if !ok || len(inner.Args) != 0 {
+		return nil
+	}
+	if cid, ok := inner.Fun.(*ast.Ident); !ok || cid.Name != par {
+		return nil
+	}
+	tv, ok := p.Info.Types[ce.Args[0]]
+	if !ok {
+		return nil
+	}
+	sig, ok := tv.Type.Underlying().(*types.Signature)
+	if !ok || sig.Results().Len() != 1 || sig.Params().Len() != 0 {
+		return nil
+	}
+	return sig.Results().At(0).Type()
 }
